@@ -17,6 +17,34 @@ from dst import boot, seeds
 
 VERIF = os.path.dirname(os.path.dirname(os.path.abspath(__file__)))
 CHUNK = 40
+SCENARIO_WALL_LIMIT_S = 15.0
+
+
+class ScenarioTimeout(BaseException):
+    """One scenario exceeded its wall-clock limit (a hang in the tree under test)."""
+
+
+def _on_alarm(signum, frame):
+    raise ScenarioTimeout()
+
+
+def execute_limited(mod, ns, scn, limit=SCENARIO_WALL_LIMIT_S):
+    """mod.execute under a wall-clock limit.  Returns (result | None, timed_out)."""
+    import signal
+
+    from dst import seams
+
+    old = signal.signal(signal.SIGALRM, _on_alarm)
+    signal.setitimer(signal.ITIMER_REAL, limit)
+    try:
+        return mod.execute(ns, scn), False
+    except ScenarioTimeout:
+        return None, True
+    finally:
+        signal.setitimer(signal.ITIMER_REAL, 0)
+        signal.signal(signal.SIGALRM, old)
+        sys.settrace(None)
+        seams.SOLVER.end()
 
 
 class Context:
@@ -42,7 +70,13 @@ def _worker_chunk(args):
             if time.time() > Context.deadline:
                 break
             scn = mod.scenario_for(k, Context.batch_seed, Context.tier, ns.repo_root, Context.opts)
-            res = mod.execute(ns, scn)
+            res, timed_out = execute_limited(mod, ns, scn)
+            if timed_out:
+                # inconclusive: neither a pass nor a violation; excluded from the determinism cross-check
+                digests.append((k, "TIMEOUT"))
+                agg["timeouts"] = agg.get("timeouts", 0) + 1
+                done += 1
+                continue
             digests.append((k, res.digest()))
             mod.aggregate(agg, scn, res)
             if res.violations:
@@ -114,7 +148,8 @@ def cross_check(prop, tier, batch_seed, repo_root, indices, digests, opts=None):
     if p.returncode != 0:
         raise boot.HarnessError(f"determinism cross-check subprocess failed: {p.stderr[-2000:]}")
     other = json.loads(p.stdout.strip().splitlines()[-1])
-    bad = [k for k in indices if other.get(str(k)) != digests.get(k)]
+    bad = [k for k in indices if other.get(str(k)) != digests.get(k)
+           and "TIMEOUT" not in (other.get(str(k)), digests.get(k))]
     return {"checked": len(indices), "mismatches": bad, "other_hashseed": "4242", "other_workers": 3}
 
 
@@ -148,8 +183,10 @@ def minimise(mod, ns, scn, fingerprint, budget_s=60):
             if time.time() - t0 > budget_s:
                 break
             try:
-                res = mod.execute(ns, cand)
+                res, timed_out = execute_limited(mod, ns, cand)
             except Exception:  # noqa: BLE001  (an invalid shrink is simply not taken)
+                continue
+            if timed_out:
                 continue
             if res.violations and res.violations[0]["fingerprint"] == fingerprint:
                 cur = cand
@@ -160,7 +197,7 @@ def minimise(mod, ns, scn, fingerprint, budget_s=60):
 
 
 def write_replay(prop, batch_seed, k, scn, violation, digest, extra=None):
-    d = os.path.join(VERIF, "replays")
+    d = os.environ.get("BBV_REPLAY_DIR") or os.path.join(VERIF, "replays")
     os.makedirs(d, exist_ok=True)
     path = os.path.join(d, f"{prop}-{batch_seed}-{k}.json")
     with open(path, "w") as f:
@@ -194,7 +231,7 @@ def replay_in_fresh_process(path, repo_root):
 
 # ------------------------------------------------------------------ evidence
 def write_evidence(prop, obj):
-    d = os.path.join(VERIF, "evidence")
+    d = os.environ.get("BBV_EVIDENCE_DIR") or os.path.join(VERIF, "evidence")
     os.makedirs(d, exist_ok=True)
     path = os.path.join(d, f"{prop}.json")
     tmp = path + ".tmp"
